@@ -59,6 +59,9 @@ pub struct Plan16 {
 pub struct C16;
 
 const FILES: &[&str] = &[
+    // names without a parent folder are legal inputs too
+    "",
+    "/",
     "/app/src/a.js",
     "/app/src/b.js",
     "/app/lib/c.js",
@@ -146,8 +149,12 @@ fn plan16(seed: u64, run: u64, tier: Tier) -> Plan16 {
         o.comments = rng.chance(1, 2);
         o.crlf = rng.chance(1, 8);
         o.unicode = rng.chance(1, 4);
-        let kind = rng.weighted(&[8, 3, 2, 2, 3]);
+        let kind = rng.weighted(&[8, 3, 2, 2, 3, 1]);
         let (kind_s, mut text) = match kind {
+            5 => {
+                let n = rng.range(200, 420);
+                ("many-literals", jsgen::gen_many_literals(&mut rng, n))
+            }
             4 => {
                 let n = rng.range(1, 6);
                 ("zoo", jsgen::gen_zoo(&mut rng, n))
